@@ -40,15 +40,34 @@ def sh(cmd, cwd=WT, timeout=3600):
 def reset():
     sh("git checkout -q -- . && git clean -fdq -e target -e target-demo")
 
+def round2_demos():
+    """Round 2: demo command taken from the DEMO_CMD line of the agent's NOTES.md."""
+    d = {}
+    for pid in ["C01","C02","C03","C04","C06","C08","C09","C12","C14","C15","C16","C20"]:
+        for var in "AB":
+            notes = f"/tmp/wt2-{pid}/seeded/{var}/NOTES.md"
+            if not os.path.exists(notes): continue
+            m = re.search(r"DEMO_CMD:\s*`?([^`\n]+)`?", open(notes).read())
+            if m: d[f"r2-{pid}-{var}"] = m.group(1).strip().replace("CARGO_TARGET_DIR=$PWD/target ", "")
+    return d
+
 def main():
     only = sys.argv[1:]
-    for key, demo_cmd in DEMOS.items():
-        if only and key not in only: continue
-        pid, var = key.split("-")
-        src = f"/tmp/wt-{pid}/seeded/{var}"
+    all_demos = dict(DEMOS)
+    all_demos.update(round2_demos())
+    for key, demo_cmd in all_demos.items():
+        if only and key not in only and not (only == ["round2"] and key.startswith("r2-")): continue
+        if key.startswith("r2-"):
+            _, pid, var = key.split("-")
+            src = f"/tmp/wt2-{pid}/seeded/{var}"
+        else:
+            pid, var = key.split("-")
+            src = f"/tmp/wt-{pid}/seeded/{var}"
+        if not os.path.exists(src):
+            continue
         out_dir = f"/verif/seeded/{key}"
         meta_path = f"{out_dir}/meta.json"
-        if os.path.exists(meta_path) and not only:
+        if os.path.exists(meta_path) and (not only or only == ["round2"]):
             print(key, "already confirmed"); continue
         t0 = time.time()
         reset()
